@@ -72,12 +72,12 @@ def _replay(c: Contract, clause_or_kind: str, args: Dict[str, Any]):
         if allowed is None:
             return True, f"real code raises undeclared {type(val).__name__}: {str(val)[:120]}"
         cond = c.raises[allowed]
-        if cond and not cond.startswith("may_"):
+        if cond and not cond.startswith(("may_", "onlyif_")):
             if not clause_native(c, cond, args, None):
                 return True, f"real code raises {type(val).__name__} although the contract's condition is false"
         return False, f"real code raises {type(val).__name__} as the contract allows"
     for k, cond in c.raises.items():
-        if cond and not cond.startswith("may_") and clause_native(c, cond, args, None):
+        if cond and not cond.startswith(("may_", "onlyif_")) and clause_native(c, cond, args, None):
             return True, f"real code returns {val!r} although the contract demands {k}"
     skipped = 0
     for p in c.posts:
